@@ -22,6 +22,11 @@ Three families of cases on the REAL FileStorage (DESIGN 4 C08):
               creating NEW objects ∥ reader under the scheduler (the gc sweep's reference callback is a yield
               point), plus a deterministic commit started from inside that callback.  [P] every returned
               commit present and complete, its new object loads, containers consistent.
+ (e) blob   — FileStorage with a blob directory: packer ∥ committers storing blobs for NEW objects ∥ reader,
+              yield points also at mkdir / rmdir / rename / remove; half of the schedules directed (the
+              committer stands at the mkdir of its blob directory while the pack cleans up emptied
+              directories).  [P] no commit fails because of the pack, every returned blob reads back (also
+              after reopen), pack ok.
  (c) fault  — inject an OSError at each raw mutating operation of a pack.  [P] pack raises (or the
               failure is harmless), the database is the unpacked or the packed one and usable: commit
               lock free, flag cleared (next pack not refused), loads work; `.pack` removed when the
@@ -1560,6 +1565,240 @@ def gen_mapping_params(rng, i):
 
 
 # ------------------------------------------------------------------------------------------------
+# (e) blobs: commits of NEW blob objects while the pack removes blob files and emptied directories
+# ------------------------------------------------------------------------------------------------
+def policy_blob_dir_race(crole):
+    """directed: the packer swaps and releases the commit lock (it is about to clean the blob directory);
+    committer c1 runs up to the mkdir of its new object's blob directory; the packer runs to its end; rest
+    random"""
+    seen = dict(swap=False)
+
+    def swapped_and_released(th, kind, label):
+        if th == 'p' and kind == 'io' and label == 'rename Data.fs.pack':
+            seen['swap'] = True
+        return seen['swap'] and th == 'p' and kind == 'release' and label == crole
+    return staged_policy([
+        ('p', swapped_and_released, None),
+        ('c1', lambda th, kind, label: th == 'c1' and kind == 'io' and label.startswith('mkdir blobs/0x'), None),
+        ('p', lambda th, kind, label: th == 'p' and kind == 'note' and label == 'attempt-end', None),
+    ])
+
+
+def blob_data(k, i):
+    return ('blob %d.%d ' % (k, i)).encode() * 5
+
+
+def run_blob_sched(P, tmp, schedule=None):
+    """FileStorage with a blob directory: 1 packer ∥ 1-2 committers storing blobs for NEW objects (and rewriting
+    an existing blob) ∥ 1 reader, yield points at every lock operation and raw file-system call (mkdir, rmdir,
+    rename, remove, link, writes)"""
+    from ZODB.blob import Blob
+    root = os.path.join(tmp, 'blob')
+    if os.path.exists(root):
+        shutil.rmtree(root)
+    os.makedirs(root)
+    path = os.path.join(root, 'Data.fs')
+    rec = vfs.Recorder(root)
+    note = Note()
+    obs = dict(P=P)
+    with clock.scripted() as clk, sched.installed(), vfs.install(rec):
+        fs = FileStorage(path, blob_dir=os.path.join(root, 'blobs'), pack_keep_old=P.get('keep_old', True))
+        db = ZODB.DB(fs)
+        c = db.open()
+        r = c.root()
+        for k in (1, 2):
+            r['K%d' % k] = PersistentMapping()
+        r['old'] = Blob(b'old blob, garbage at the pack time')
+        transaction.commit()
+        if P.get('keeper'):             # a second blob object that stays: parents never become empty
+            r['keeper'] = Blob(b'kept blob')
+            transaction.commit()
+        with r['old'].open('w') as f:
+            f.write(b'old blob, second revision')
+        transaction.commit()
+        del r['old']
+        transaction.commit()
+        t = clk.now + 0.5
+        T = packtid(t)
+        r['K1']['post'] = 1
+        transaction.commit()
+        c.close()
+        returned = []
+
+        def packer():
+            note('attempt-start')
+            try:
+                db.pack(t)
+                o = 'ok'
+            except Exception as e:          # noqa: B902
+                o = 'raised:%s:%s' % (type(e).__name__, e)
+            note('attempt-end')
+            return o
+
+        def committer(k):
+            def f():
+                tm = transaction.TransactionManager()
+                c = db.open(tm)
+                out = []
+                for i in range(P.get('commits', 2)):
+                    name = 'b%d_%d' % (k, i)
+                    try:
+                        tm.begin()
+                        K = c.root()['K%d' % k]
+                        if i and P.get('rewrite') and i % 2:
+                            name = 'b%d_%d' % (k, i - 1)
+                            with K[name].open('w') as f:
+                                f.write(blob_data(k, i))
+                        else:
+                            K[name] = Blob(blob_data(k, i))
+                        tm.commit()
+                        K[name]._p_activate()       # (a committed blob is a ghost until touched)
+                        returned.append((K[name]._p_serial, k, name, blob_data(k, i)))
+                        note('commit-returned')
+                        out.append('ok')
+                    except ConflictError:
+                        tm.abort()
+                        out.append('conflict')
+                    except Exception as e:      # noqa: B902
+                        try:
+                            tm.abort()
+                        except Exception:       # noqa: B902
+                            pass
+                        out.append('raised:%s:%s' % (type(e).__name__, e))
+                c.close()
+                return out
+            return f
+
+        def reader():
+            tm = transaction.TransactionManager()
+            c = db.open(tm)
+            out = []
+            for i in range(P.get('reads', 3)):
+                tm.begin()
+                try:
+                    ok = True
+                    for k in (1, 2):
+                        K = c.root()['K%d' % k]
+                        for n in [n for n in K.keys() if n.startswith('b')]:
+                            with K[n].open('r') as f:
+                                d = f.read()
+                            ok = ok and d.startswith(('blob %s.' % n[1]).encode())
+                    out.append(ok)
+                except Exception as e:          # noqa: B902
+                    out.append('raised:%s' % type(e).__name__)
+                tm.abort()
+                c.cacheMinimize()
+            c.close()
+            return out
+
+        rec.events.clear()
+        policy = policy_blob_dir_race(fs._commit_lock.role) if P.get('directed') else None
+        s = DirectedScheduler(seed=P['seed'], schedule=schedule, stickiness=P.get('stick', 0.5), policy=policy)
+        note.s = s
+        hook_vfs(rec, note)
+        s.spawn('p', packer)
+        for k in range(1, P.get('committers', 1) + 1):
+            s.spawn('c%d' % k, committer(k))
+        if P.get('reads', 3):
+            s.spawn('r', reader)
+        res = s.run(timeout=60)
+        rec.on_event = None
+        note.s = None
+        obs.update(deadlock=bool(res['deadlock']), results=res['results'], steps=res['steps'],
+                   decisions=res['decisions'])
+        pr = []
+        if res['errors']:
+            pr.append(('thread-error', repr(res['errors'])))
+        started, ended = False, False
+        obs['nontrivial'] = False
+        for th, kind, label in res['events']:
+            if th == 'p' and kind == 'note':
+                started, ended = started or label == 'attempt-start', ended or label == 'attempt-end'
+            elif started and not ended and kind == 'note' and label == 'commit-returned':
+                obs['nontrivial'] = True
+        if not res['deadlock']:
+            for k in range(1, P.get('committers', 1) + 1):
+                for o in (res['results'].get('c%d' % k) or ['missing']):
+                    if o.startswith('raised') or o == 'missing':
+                        pr.append(('commit-error:%s' % (o.split(':')[1] if ':' in o else o),
+                                   'the commit of a blob failed while a pack was running: ' + o))
+            if res['results'].get('p') != 'ok':
+                pr.append(('pack-error:%s' % str(res['results'].get('p')).split(':')[1 if res['results'].get('p') else 0],
+                           str(res['results'].get('p'))))
+            for o in (res['results'].get('r') or []):
+                if o is not True:
+                    pr.append(('reader-error:%s' % (o.split(':')[1] if isinstance(o, str) else 'wrong-data'),
+                               'a reader of committed blobs got %r' % (o,)))
+            try:
+                pr += _blob_verify(fs, db, returned)
+                db.close()
+                fs2 = FileStorage(path, blob_dir=os.path.join(root, 'blobs'))
+                db2 = ZODB.DB(fs2)
+                try:
+                    pr += [('reopen-' + a, b) for a, b in _blob_verify(fs2, db2, returned)]
+                finally:
+                    db2.close()
+            except Exception as e:          # noqa: B902
+                pr.append(('verify-raised:%s' % type(e).__name__, repr(e)))
+        try:
+            db.close()
+        except Exception:                   # noqa: B902
+            pass
+    obs['problems'] = pr
+    return obs
+
+
+def _blob_verify(fs, db, returned):
+    """every returned blob commit is stored and its blob file reads back"""
+    pr = []
+    tids = set(t.tid for t in fs.iterator())
+    last = {}
+    for tid, k, name, data in returned:
+        if tid not in tids:
+            pr.append(('lost-commit', 'blob commit %s of committer %d returned but is not stored' % (tid.hex(), k)))
+        last[(k, name)] = data
+    c = db.open()
+    try:
+        for (k, name), data in sorted(last.items()):
+            try:
+                with c.root()['K%d' % k][name].open('r') as f:
+                    got = f.read()
+                if got != data:
+                    pr.append(('wrong-data', 'blob %s reads %r' % (name, got[:30])))
+            except Exception as e:          # noqa: B902
+                pr.append(('lost-blob', 'blob %s committed by committer %d cannot be read: %s: %s'
+                           % (name, k, type(e).__name__, e)))
+    finally:
+        c.close()
+    return pr
+
+
+def run_blob_case(ck, case):
+    P = case['P']
+    o = run_blob_sched(P, ck.tmp, case.get('schedule'))
+    ck.case(dict(kind='blob', P=P), o['nontrivial'],
+            sample=dict(kind='blob', P=P, results=o['results']) if o['nontrivial'] else None)
+    ck.count('blob-sched-steps', o['steps'])
+    for k, v in (o['results'] or {}).items():
+        if k.startswith('c') and v:
+            for x in v:
+                ck.count('blob-commit:%s' % x.split(':')[0])
+    if o['deadlock']:
+        ck.violation('C08:blob:deadlock', 'deadlock while packing a FileStorage with blobs',
+                     dict(kind='blob', P=P, schedule=o['decisions']))
+    elif o['problems']:
+        sym, text = o['problems'][0]
+        ck.violation('C08:blob:' + sym, 'pack of a FileStorage with blobs under concurrent blob commits: ' + text,
+                     dict(kind='blob', P=P, schedule=o['decisions'], all_problems=o['problems'][:5]))
+
+
+def gen_blob_params(rng, i):
+    return dict(seed=rng.randrange(10 ** 9), stick=rng.choice([0.0, 0.3, 0.6, 0.9]), committers=rng.choice([1, 2]),
+                commits=rng.choice([1, 2, 3]), reads=rng.choice([0, 2]), keep_old=rng.choice([True, False]),
+                keeper=int(i % 4 == 3), rewrite=rng.choice([0, 1]), directed=int(i % 2 == 0))
+
+
+# ------------------------------------------------------------------------------------------------
 # generators
 # ------------------------------------------------------------------------------------------------
 def gen_sched_params(rng, i):
@@ -1936,6 +2175,8 @@ def _run_case(ck, case):
         run_script_case(ck, case)
     elif kind == 'mapping':
         run_mapping_case(ck, case)
+    elif kind == 'blob':
+        run_blob_case(ck, case)
     else:
         raise InfraError('unknown case kind %r' % kind)
 
@@ -1973,6 +2214,8 @@ def main(argv=None):
         cases += [dict(kind='crash', P=gen_crash_params(ck.rng, i), thorough=bool(ck.thorough and i < 40))
                   for i in range(ncrash)]
         cases += [dict(kind='fault', P=gen_fault_params(ck.rng, i)) for i in range(nfault)]
+        nblob = 40 if not ck.thorough else 1000
+        cases += [dict(kind='blob', P=gen_blob_params(ck.rng, i)) for i in range(nblob)]
         nmap = 60 if not ck.thorough else 1500
         cases += [dict(kind='mapping', P=gen_mapping_params(ck.rng, i)) for i in range(nmap)]
         cases += [dict(kind='mapping', mode='callback', P=dict(ptime=pt, pre=pre, at=at))
